@@ -2,7 +2,7 @@
 # usage: tools/runall.sh [quick|thorough] [ids...]   -- runs the checks one after another, prints id, exit status, seconds
 tier=${1:-quick}; shift
 ids=${@:-C01 C02 C03 C04 C05 C06 C07 C08 C09 C10 C11 C12 C13 C14 C15 C16 C17 C18 C19}
-cd /verif
+cd "$(dirname "$(readlink -f "$0")")/.."
 bad=0
 for p in $ids; do
   t0=$(date +%s)
